@@ -178,6 +178,7 @@ func main() {
 }
 
 func resetCaches() {
+	implCache = map[implKey][]*ssa.Function{}
 	pureCache = map[*ssaFunc]int{}
 	mayStoreCache = map[*ssaFunc]map[string]bool{}
 	atomUnsigned = map[string]bool{}
